@@ -867,6 +867,10 @@ class ContentElement(TTMLElement):
           LOGGER.warning("Children of a sequential time container that follow a child with indefinite end never begin")
           break
 
+        if issubclass(self.ttml_class, SetElement):
+          # <set> has no content children, and neither xml:space nor xml:lang for them to inherit
+          break
+
         child_element = ContentElement.from_xml(self, child_xml_element)
 
         if child_element is not None:
